@@ -780,7 +780,12 @@ func (g *gen) httpCase(tag string, v any, accepts []string, noModel bool, kind s
 		g.r.Count("http-request-format:" + fname(fm))
 		// full cycle: client dumps the request, server loads it and answers in the format the request asks for,
 		// client loads the response
-		lines = append(lines, "newreq", fmt.Sprintf("req %d", fm), "loadreq", "resp", "loadresp")
+		if g.rng.Intn(4) != 0 {
+			lines = append(lines, "newreq")
+		} else {
+			g.r.Count("http-request:reused-object") // the same *http.Request is dumped into again: headers and body are replaced
+		}
+		lines = append(lines, fmt.Sprintf("req %d", fm), "loadreq", "resp", "loadresp")
 	}
 	for _, a := range accepts {
 		ar := readAccept(a)
@@ -816,9 +821,21 @@ func (g *gen) httpCase(tag string, v any, accepts []string, noModel bool, kind s
 
 // ---- malformed blobs --------------------------------------------------------------------------------------------------------------------
 
+// dictionary: byte strings with a meaning for one of the layers (identifier bytes, varint continuation, BOM, the
+// "nothing" value of every codec, document starts, gzip magic, real gzip streams of empty and short content).
+var dictionary = [][]byte{
+	{0xef, 0xbb, 0xbf}, []byte("{"), []byte("{}"), []byte("null"), []byte("null\n"), []byte("\""), []byte("\"\""), []byte("---\n"), []byte("~"), []byte("[]"),
+	{0x00}, {0x01}, {0xf6}, {0xc0}, {0xa0}, {0x80}, {0x90}, {0x40}, {0x60},
+	{0x1f, 0x8b, 0x08}, {0x1f, 0x8b, 0x08, 0, 0, 0, 0, 0, 0, 0xff},
+	{dsd.AUTO}, {dsd.RAW}, {dsd.CBOR}, {dsd.GenCode}, {dsd.JSON}, {dsd.LIST}, {dsd.MsgPack}, {dsd.YAML}, {dsd.GZIP}, {dsd.GZIP, dsd.GZIP},
+	{dsd.JSON | 0x80, 0x01}, {dsd.GZIP | 0x80, 0x01},
+	gzipBytes(nil), gzipBytes([]byte{dsd.JSON}), gzipBytes([]byte("J{}")), gzipBytes([]byte("Jnull")), gzipBytes([]byte{dsd.RAW}),
+	gzipBytes([]byte{dsd.YAML}), gzipBytes(gzipBytes([]byte("J{}"))),
+}
+
 func (g *gen) mutate(b []byte) ([]byte, string) {
 	b = append([]byte(nil), b...)
-	switch k := g.rng.Intn(9); {
+	switch k := g.rng.Intn(11); {
 	case k == 0 && len(b) > 0:
 		return b[:g.rng.Intn(len(b))], "truncate"
 	case k == 1 && len(b) > 0:
@@ -839,6 +856,19 @@ func (g *gen) mutate(b []byte) ([]byte, string) {
 		return b[1:], "drop-identifier"
 	case k == 7:
 		return append([]byte{dsd.GZIP}, b...), "gzip-id-on-plain"
+	case k == 8 || k == 9:
+		// dictionary: tokens that mean something to some layer, at the start, after the identifier, or at the end
+		tok := dictionary[g.rng.Intn(len(dictionary))]
+		switch pos := g.rng.Intn(4); {
+		case pos == 0:
+			return append(append([]byte{}, tok...), b...), "dictionary-prefix"
+		case pos == 1 && len(b) > 0:
+			return append(append([]byte{b[0]}, tok...), b[1:]...), "dictionary-after-id"
+		case pos == 2 && len(b) > 0:
+			return append([]byte{b[0]}, tok...), "dictionary-as-payload"
+		default:
+			return append(b, tok...), "dictionary-suffix"
+		}
 	default:
 		n := g.rng.Intn(12)
 		x := make([]byte, n)
